@@ -458,7 +458,14 @@ func runCase(c Case, ctx *hx.Ctx) *hx.Failure {
 					}
 				}(i)
 			}
-			wg.Wait()
+			if done, hang, detail := hx.WaitBounded(&wg, 30*time.Second, "c10.runCase", nil); !done {
+				if hang {
+					return hx.Failf("C10/query-never-returns", "a burst of %d concurrent queries through the cache has not finished after 30 s; stuck in the cache:\n%s", op.N, detail)
+				}
+				ctx.Class("inconclusive:burst-slow")
+				wg.Wait()
+				return nil
+			}
 			anyMut = true
 			for _, f := range fails {
 				if f != nil {
